@@ -466,7 +466,8 @@ def handleTx (ds : DS) (j : Json) : IO DS := do
         if !Cert.isCertifier pre.c signer then ds ← finding ds "monitor" "C13" "only_certifiers_certify" s!"platform certified by non-certifier {signer}"
       | "shield.purchase" | "shield.stakeForShield" =>
         ds := stat ds "mon.c06.purchase"
-        for x in ShieldD.monPurchaseAccepted pre.sh ds.shield (J.intOf m "pool").toNat (J.intOf m "amt") true do ds ← finding ds "monitor" "C06" "purchase_within_limits" x
+        let lockedNow : Int := if ds.hasGov then (ds.gov.proposals.filter (fun p => p.kind == "claim" && (p.status == 1 || p.status == 2 || p.status == 3))).foldl (fun acc p => acc + Coins.amountOf p.clLoss "uctk") 0 else 0
+        for x in ShieldD.monPurchaseAccepted pre.sh ds.shield (J.intOf m "pool").toNat (J.intOf m "amt") true lockedNow do ds ← finding ds "monitor" "C06" "purchase_within_limits" x
       | "shield.createPool" =>
         ds := stat ds "mon.c06.admin_purchase"
         let pid := pre.sh.nextPool
@@ -626,7 +627,20 @@ def handleBegin (ds : DS) (j : Json) : IO DS := do
     if delta != 0 then ds := stat ds "sit.c02.block_rewards"
     let (l', s') := Shield.fundBlockRewards (shieldEnv ds) w.l w.sh (ds.sys.modAddr "mint") delta
     w := { w with l := l', sh := s' }
-  ds ← compareWorld ds "begin" w ds.sys.systemAccts
+    -- double-sign evidence: the SDK slashes the validator and, for an infraction in the past, the unbonding delegations and
+    -- redelegations begun since — the latter by unbonding at the destination validator, which runs the delegation hooks
+    -- (rewards are withdrawn, shield recomputes the provider's stake).  Staking is an observed input of the shield model: the
+    -- hook is applied to every provider whose recorded stake changed in this BeginBlock.
+    if J.has j "evidence" then
+      ds := stat ds "sit.c09.double_sign_evidence"
+      for p in w.sh.providers do
+        if (Shield.findProvider ds.shield p.addr).map (·.bonded) != some p.bonded then
+          match Shield.stakingChanged (shieldEnv ds) w.sh p.addr with
+          | .ok s2 => w := { w with sh := s2 }
+          | .error x => ds ← finding ds "diverge" "C06,C03" "begin:hook-fails" s!"{p.addr}: {x.kind}"
+  -- … and the reward withdrawals move coins between distribution and the delegators: only the shield account is compared then
+  let skip := if J.has j "evidence" then ds.ledger.accounts.filter (· != ds.sys.modAddr "shield") ++ ds.sys.systemAccts else ds.sys.systemAccts
+  ds ← compareWorld ds "begin" w skip
   ds ← transitionMonitors ds pre.g pre.c false
   runMonitors ds true false
 
